@@ -886,6 +886,40 @@ pub fn run_search(ctx: &Ctx, focus: Focus, rule_text: &str) -> Outcome {
     if out.failure.is_some() {
         return out;
     }
+    // year-edge corner rules (rule day in the first / last days of the year, extreme day times and offsets: a transition of one year
+    // then falls up to nine days into the neighbouring year), searched just before / at / inside / after every event of a 7-year window
+    {
+        let rules = crate::orule::corner_rules(&[-604_799, -601_200, 0, 601_200, 604_799], &[-89_999, 0, 93_599]);
+        let mut queries = vec![];
+        for k in 0..16u32 {
+            for side in 0..2u8 {
+                for delta in [-1, 0, 1, 1800] {
+                    queries.push(Query::AtEvent { sel: k * (u32::MAX / 16) + 1000, side, delta });
+                }
+            }
+        }
+        for dy in -1..=1 {
+            queries.push(Query::NewYear { dy, side: 0, delta: 0 });
+            queries.push(Query::NewYear { dy, side: 1, delta: -1 });
+        }
+        let (rr, qq) = (&rules, &queries);
+        let n = 64u64;
+        let rs = par_shards(n, |shard, st| {
+            for (i, r) in rr.iter().enumerate().skip(shard as usize).step_by(n as usize) {
+                if matches!(crate::orule::classify(r), Class::Overlap) && overlap_listed_as_known() {
+                    continue;
+                }
+                let c = SearchCase { zone: MZone { trans: vec![], types: vec![r.std.clone(), r.dst.clone()], leaps: vec![], trailer: MTrailer::Alt(r.clone()) }, base_year: if i % 2 == 0 { 2003 } else { 1996 }, queries: qq.clone(), sec60_every: 3 };
+                check_enum(kind, &c, st, |c, st| check_search(c, focus, st))?;
+                st.class("year_edge_corner_rule_zones");
+            }
+            Ok(())
+        });
+        out.absorb_all(rs);
+        if out.failure.is_some() {
+            return out;
+        }
+    }
     let cases = ctx.tier.pick(12_000u32, 200_000u32);
     let strat = arb_search_case(16, 48);
     let rs = par_shards(16, |shard, st| pt_shard(ctx, kind, shard, cases, &strat, st, |c, st| check_search(c, focus, st)));
